@@ -310,6 +310,12 @@ class MemoryFileSystem(FileSystem):
 
     if buffer is None:
       raise FileNotFoundError(path)
+    if 'w' in mode and isinstance(buffer, io.BytesIO) != ('b' in mode):
+      # Overwriting text with binary content (or the reverse) starts a new
+      # file of the other kind.
+      parent_dir, name = self._parent_and_name(path)
+      buffer = io.BytesIO() if 'b' in mode else io.StringIO()
+      parent_dir[name] = buffer
     file = MemoryFile(buffer)
     if 'w' in mode:
       # Writing starts from an empty file.
